@@ -68,16 +68,8 @@ theorem verylow_sentence (t : Tree) (h : WF t = true) : sentence (punctuationVer
 theorem verylow_WF (t : Tree) (h : WF t = true) : WF (punctuationVerylow t) = true :=
   (verylow_inv t h).WF h
 
-example : (punctuationVerylow exT).beq
-    (node { label := "S".toList, uid := some 0 } [
-      node { label := "NP".toList, uid := some 1 } [
-        leaf 1 { label := "A".toList, word := some "a".toList, uid := some 2 },
-        leaf 2 { label := ",".toList, word := some ",".toList, uid := some 3 }],
-      node { label := "VP".toList, uid := some 4 } [
-        leaf 3 { label := "B".toList, word := some "b".toList, uid := some 5 },
-        leaf 4 { label := "Q".toList, word := some "\"".toList, uid := some 6 },
-        leaf 5 { label := "C".toList, word := some "c".toList, uid := some 7 },
-        leaf 6 { label := ".".toList, word := some ".".toList, uid := some 8 }]]) = true := by decide +kernel
+/-- the final `.` joins the constituent of token 5 -/
+example : (punctuationVerylow exT).kids.map leafNums = [[1, 2], [3, 4, 5, 6]] := by decide
 
 /-! ## root -/
 
@@ -95,16 +87,8 @@ theorem root_sentence (t : Tree) (h : WF t = true) : sentence (punctuationRoot t
 theorem root_WF (t : Tree) (h : WF t = true) : WF (punctuationRoot t) = true :=
   (root_inv t h).WF h
 
-example : (punctuationRoot exT).beq
-    (node { label := "S".toList, uid := some 0 } [
-      node { label := "NP".toList, uid := some 1 } [
-        leaf 1 { label := "A".toList, word := some "a".toList, uid := some 2 }],
-      node { label := "VP".toList, uid := some 4 } [
-        leaf 3 { label := "B".toList, word := some "b".toList, uid := some 5 },
-        leaf 5 { label := "C".toList, word := some "c".toList, uid := some 7 }],
-      leaf 2 { label := ",".toList, word := some ",".toList, uid := some 3 },
-      leaf 4 { label := "Q".toList, word := some "\"".toList, uid := some 6 },
-      leaf 6 { label := ".".toList, word := some ".".toList, uid := some 8 }]) = true := by decide +kernel
+/-- all punctuation tokens end up below the root -/
+example : (punctuationRoot exT).kids.map leafNums = [[1], [3, 5], [2], [4], [6]] := by decide
 
 /-! ## symetrify -/
 
@@ -134,6 +118,7 @@ def exS : Tree :=
       leaf 4 { label := "Q".toList, word := some "\"".toList, uid := some 6 }]]
 
 example : WF exS = true := by decide
-#eval punctuationSymetrify none exS
+/-- the opening quote is pulled next to the closing one -/
+example : (punctuationSymetrify none exS).kids.map leafNums = [[2], [3, 4, 1]] := by decide
 
 end TT.Props.C13
